@@ -7,14 +7,14 @@
 (* every ownership configuration of the bound.                              *)
 (***************************************************************************)
 EXTENDS ResSubs
-CONSTANTS MaxEntries
+CONSTANTS MaxRR, MaxRA   \* bounds on the owned-resource and owned-access lists
 Entries == { <<"s">>, <<"s",".",">">>, <<"s",".","a">>, <<"s",".","a",".",">">>, <<"s",".","*">>, <<">">>, <<"t">> }
 VARIABLES rr, ra, phase
 vars == <<rr, ra, phase>>
 Init == rr = <<>> /\ ra = <<>> /\ phase = "build"
 Next == /\ phase = "build"
-        /\ \/ Len(rr) < MaxEntries /\ \E e \in Entries : rr' = Append(rr, e) /\ UNCHANGED <<ra, phase>>
-           \/ Len(ra) < MaxEntries /\ \E e \in Entries : ra' = Append(ra, e) /\ UNCHANGED <<rr, phase>>
+        /\ \/ Len(rr) < MaxRR /\ \E e \in Entries : rr' = Append(rr, e) /\ UNCHANGED <<ra, phase>>
+           \/ Len(ra) < MaxRA /\ \E e \in Entries : ra' = Append(ra, e) /\ UNCHANGED <<rr, phase>>
 Spec == Init /\ [][Next]_vars
 Cfg == [sn |-> <<"s">>, rr |-> rr, ra |-> ra, rrnil |-> FALSE, ranil |-> FALSE, hasRes |-> TRUE, hasAcc |-> TRUE]
 EndsFull(p) == Tokens(p)[Len(Tokens(p))] = <<">">>
